@@ -151,6 +151,8 @@ def tie(tier, seed):
     items = items_for(tier, seed)
     out, errors = par.run(items, export_item)
     agree = total = skipped = 0
+    rot_yes = rot_no = rot_other = 0
+    rot_unmet = []
     mism = []
     shapes = {}
     for item, meta, res in out:
@@ -165,9 +167,22 @@ def tie(tier, seed):
         rs = res if (res and isinstance(res[0], list)) else [res]
         for x in rs:
             total += 1
+            if len(x) >= 4:
+                # fourth column: a plain rotation (one header, no early return) that meets the hypotheses of the
+                # universal path theorem (LoopHierApplic.walk_pre_rot) and is the rotation the theorem speaks about
+                if x[3] == 1:
+                    rot_yes += 1
+                elif x[3] == 2:
+                    rot_other += 1
+                else:
+                    rot_no += 1
+                    if len(rot_unmet) < 4:
+                        rot_unmet.append({"graph": item[1]})
             if x[:3] == [1, 1, 1]:
                 agree += 1
             elif len(mism) < 4:
                 mism.append({"graph": item[1], "columns": x})
     return {"calls_compared": total, "agree": agree, "mismatch_count": total - agree, "mismatches": mism,
+            "plain_rotations_meeting_path_theorem_hypotheses": rot_yes, "plain_rotations_not_meeting_them": rot_no,
+            "plain_rotation_unmet_examples": rot_unmet, "calls_that_are_no_plain_rotation": rot_other,
             "calls_by_shape": shapes, "skipped": skipped, "harness_errors": [repr(e)[:200] for e in errors][:3]}
